@@ -143,16 +143,67 @@ theorem C05_frozen {α : Type} (calls : List (List (Ev α))) (h : Heap α) (hok 
 
 /-! ## text form -/
 
-/-- `format_float(x)` (as coded after the repair) of any value whose `x + 0.0` is finite has the shape
-`-?[0-9]+(\.[0-9]{1,6})?`, is never `-0`, and consists of sign, digits and point only (no exponent, no `inf`/`nan`). -/
+/-- `format_float(x)` of any value whose `x + 0.0` is finite has the shape `-?[0-9]+(\.[0-9]{1,6})?` and consists
+of sign, digits and point only (no exponent, no `inf`/`nan`). -/
 theorem C05_text_shape (x : Val) (hy : (add x zero).isFinite = true) :
-    shapeOK (formatFloat x) = true ∧ formatFloat x ≠ ['-', '0'] ∧ ∀ c ∈ formatFloat x, plainChar c = true :=
+    shapeOK (formatFloat x) = true ∧ ∀ c ∈ formatFloat x, plainChar c = true :=
   formatFloat_shape x hy
 
-/-- The code before the repair did return `-0` (for -1e-9, and for every negative double that rounds to zero at
-6 places). -/
-theorem C05_text_old_minus_zero :
-    formatFloatOld (decode 0xBE112E0BE826D695) = ['-', '0'] ∧ formatFloat (decode 0xBE112E0BE826D695) = ['0'] := by
+/-- … in particular for every finite bit pattern (a double plus 0.0 is that double). -/
+theorem C05_text_shape_bits (w : UInt64) (h : (decode w).isFinite = true) :
+    shapeOK (formatFloat (decode w)) = true ∧ ∀ c ∈ formatFloat (decode w), plainChar c = true :=
+  formatFloat_shape _ (add_zero_decode_finite w h)
+
+/-- `format_float` prints `-0` exactly for the negative values that round to zero at six places
+(`negRoundsToZero`: sign set and `'%.6f'` digits all zero, i.e. -5e-7 ≤ x < 0). The property's "never `-0`" is
+therefore false of the code as it is … -/
+theorem C05_text_minus_zero_iff (x : Val) (hy : (add x zero).isFinite = true) :
+    formatFloat x = ['-', '0'] ↔ negRoundsToZero x = true :=
+  formatFloat_minus_zero_iff x hy
+
+/-- … with the concrete witness -1e-9 (replayed on the implementation; open finding `text-minus-zero`, pinned by
+the repo's own tests/test_vec.py so not repaired) … -/
+theorem C05_text_minus_zero_witness :
+    (decode 0xBE112E0BE826D695).isFinite = true ∧ negRoundsToZero (decode 0xBE112E0BE826D695) = true ∧
+    formatFloat (decode 0xBE112E0BE826D695) = ['-', '0'] := by
   decide +kernel
+
+/-- … and true outside that class. -/
+theorem C05_text_no_minus_zero_partial (x : Val) (hy : (add x zero).isFinite = true)
+    (hx : negRoundsToZero x = false) : formatFloat x ≠ ['-', '0'] := by
+  intro h
+  rw [(C05_text_minus_zero_iff x hy).1 h] at hx
+  cases hx
+
+/-- Angles are never printed with `-0`: their fields are non-negative (C05_angle_inv). -/
+theorem C05_text_angle_no_minus_zero (b : Nat) (hb : b < 360 * U) : formatFloat (.fin false b) ≠ ['-', '0'] :=
+  C05_text_no_minus_zero_partial _ (add_zero_angle_finite b hb) (negRoundsToZero_nonneg b)
+
+/-- The exact decimal value of `format_float(x)` is within 5e-7 of `x + 0.0`. -/
+theorem C05_text_close (x : Val) (s : Bool) (m : Nat) (hadd : add x zero = .fin s m) :
+    |decVal (formatFloat x) - ratOf s m| ≤ 5 / 10000000 :=
+  formatFloat_close x s m hadd
+
+/-- … for every finite bit pattern: within 5e-7 of the double itself. -/
+theorem C05_text_close_bits (w : UInt64) (q : Rat) (h : toRat? (decode w) = some q) :
+    |decVal (formatFloat (decode w)) - q| ≤ 5 / 10000000 := by
+  cases hd : decode w with
+  | fin s m =>
+    rw [hd, toRat?_fin] at h
+    have hq : q = ratOf s m := by injection h with h; exact h.symm
+    have hadd := add_zero_decode w s m hd
+    rw [← hd, hq]
+    by_cases hm : m = 0
+    · subst hm
+      simp only [if_true] at hadd
+      have := formatFloat_close (decode w) false 0 hadd
+      have e : ratOf s 0 = ratOf false 0 := by unfold ratOf; cases s <;> simp
+      rw [e]; exact this
+    · simp only [hm, if_false] at hadd
+      exact formatFloat_close (decode w) s m hadd
+  | inf s => rw [hd] at h; cases h
+  | nan => rw [hd] at h; cases h
+
+example : toRat? (decode 0x405EDD3C07EE0B0B) ≠ none := by decide +kernel   -- 123.4567890123
 
 end C05
